@@ -98,8 +98,8 @@ var quickAlpha = alphabet{
 	host: []string{"in.example", "out.example", "IN.example", "web.archive.org", "archive-it.org", "localhost", "127.0.0.1",
 		"127.1", "2130706433", "nodot", "bücher.example", "[::1]"},
 	port:  []string{"", ":80", ":8080"},
-	path:  []string{"", "/", "/a/b", "/x%2Fy", "/secret/z"},
-	query: []string{"", "?a=1", "?u=secret"},
+	path:  []string{"", "/", "/a/b", "/x%2Fy", "/secret/z", "/a/50%25off"}, // the last: an encoded percent sign (decodes to a stray "%")
+	query: []string{"", "?a=1", "?u=secret", "?u=secret&d=100%"}, // the last: a bare percent sign (URLs keep it)
 	wrap:  []string{"%s", `"%s"`, `'%s'`},
 }
 
